@@ -11,7 +11,7 @@ CHECKS = {
  "C01": dict(
     level="model_checking", ref="DESIGN.md §4 C01",
     technique="TLA+ spec RtStream/RtStreamAbs checked by TLC + TLC-generated call sequences replayed through libovni and validated against the spec (trace validation)",
-    text="TLC explores every call sequence of the scaled faithful model (CAP=56) and every fill level of the real 2 MiB buffer in the size-abstracted model; invariants Fidelity, OnlyMarkers, HeaderFirst, Tiling, BufferBound. The spec is bound to src/rt/ovni.c by replaying every call at every one of the last 64 fill levels plus TLC -simulate walks through the real library and validating the recorded file sizes and the decoded stream with RtStreamTrace.tla; runs are repeated under an LD_PRELOAD shim that makes write() truthfully short, and three-thread programs (all threads freeing at once, with and without relocation from OVNI_TMPDIR) are validated stream by stream; scripts also run with relocation (incl. OVNI_TMPDIR being the trace directory itself, under another name or the same, existing or not), with 7-digit pid/tid, without the execute event in front, with payloads handed over in several ovni_payload_add calls, with the wall clock stepped backwards under the shim, with every sequence of up to three small events before the first flush, with every sequence of up to three flush-separated segments made of one kind of call only (plain events / marks / fitting jumbo events), with the call under test as the last thing before the final flush, as programs with a time base of their own that starts at zero (clocks handed over = clocks in the stream), and with metadata updates (ovni_attr_set/flush) between the events. The inductive invariant 0 <= fill < CAP and no nested flush (RtStreamInd.tla, same arithmetic module) is discharged by Apalache for the real capacity and a symbolic jumbo size.",
+    text="TLC explores every call sequence of the scaled faithful model (CAP=56) and every fill level of the real 2 MiB buffer in the size-abstracted model; invariants Fidelity, OnlyMarkers, HeaderFirst, Tiling, BufferBound. The spec is bound to src/rt/ovni.c by replaying every call at every one of the last 64 fill levels plus TLC -simulate walks through the real library and validating the recorded file sizes and the decoded stream with RtStreamTrace.tla; runs are repeated under an LD_PRELOAD shim that makes write() truthfully short, and three-thread programs (all threads freeing at once, with and without relocation from OVNI_TMPDIR) are validated stream by stream; scripts also run with relocation (incl. OVNI_TMPDIR being the trace directory itself, under another name or the same, existing or not), with 7-digit pid/tid, without the execute event in front, with payloads handed over in several ovni_payload_add calls, with the wall clock stepped backwards under the shim, with every sequence of up to three small events before the first flush, with every sequence of up to three flush-separated segments made of one kind of call only (plain events / marks / fitting jumbo events), with the call under test as the last thing before the final flush, as programs with a time base of their own that starts at zero (clocks handed over = clocks in the stream), with metadata updates (ovni_attr_set/flush) between the events, and with stack marks (nested pushes of different and of equal values). The inductive invariant 0 <= fill < CAP and no nested flush (RtStreamInd.tla, same arithmetic module) is discharged by Apalache for the real capacity and a symbolic jumbo size.",
     note="Payload/jumbo bytes are opaque ids in TLA+; their byte equality (MCV, clock, payload, jumbo data) is checked by the harness decoder against the driver's emit log. Logical clock abstracts CLOCK_MONOTONIC. Exhaustive only within the stated constants."),
  "C02": dict(
     level="model_checking", ref="DESIGN.md §4 C02",
@@ -37,7 +37,7 @@ CHECKS = {
  "C07": dict(
     level="model_checking", ref="DESIGN.md §4 C07",
     technique="TLA+ spec EmuFull (task/body state machine of task.c/body.c with the nOS-V and Nanos6 rules) explored by TLC with invariants; transition cover replayed on ovniemu; task id/type/body/app/rank timelines validated by EmuTrace.tla",
-    text="Bounded nOS-V model (normal, parallel and second normal task, 2 threads, rank) and Nanos6 model (relaxed nesting, rank) explored exhaustively with BodyRunsOnAtMostOneThread, OnlyTopRuns, TaskChansMirrorBodies, ParallelNeverPaused; 8000 (quick) histories incl. every rejected transition class replayed on the emulator, plus histories with both task models in one trace.",
+    text="Bounded nOS-V model (normal, parallel and second normal task, 2 threads, rank) and Nanos6 model (relaxed nesting, rank) explored exhaustively with BodyRunsOnAtMostOneThread, OnlyTopRuns, TaskChansMirrorBodies, ParallelNeverPaused; 8000 (quick) histories incl. every rejected transition class replayed on the emulator, plus histories with both task models in one trace; task-type labels with blanks and percent signs.",
     note="Task types compared through PCF labels; a Nanos6 task started directly over TASK_BODY is Unspecified."),
  "C08": dict(
     level="model_checking", ref="DESIGN.md §4 C08",
@@ -79,7 +79,7 @@ CHECKS = {
     level="model_checking", ref="DESIGN.md §4 C15",
     technique="TLA+ spec SystemOps/System (property layer = function of the union of metadata; implementation layer = sequential first-come merge) checked by TLC over all distributions/orders/contradictions; exported cases materialised and run through ovniemu (verdict, signal, thread.row/cpu.row)",
     text="For every distribution of app_id/rank/loom_cpus over the threads, CPU list order, processing order and every single contradiction of the bounded family TLC checks that the merge agrees with the union semantics and that rows are distribution independent; a deterministic sample and all contradictions are run on the real emulator and rows/verdict/absence of signals compared.",
-    note="2 looms, 3 processes, 5 threads, plus a 3-loom family (one PID used in two looms) with rank information on any subset of the looms in 8 (thorough: all 120) processing orders; equal sort keys are Unspecified."),
+    note="2 looms, 3 processes, 5 threads, loom names node<l>.x or names whose whole-string order differs from the order of their host parts (cn1-ib.0 / cn1.0), plus a 3-loom family (one PID used in two looms) with rank information on any subset of the looms in 8 (thorough: all 120) processing orders; equal sort keys are Unspecified."),
 
  "C18": dict(
     level="model_checking", ref="DESIGN.md §4 C18",
@@ -100,13 +100,13 @@ CHECKS = {
  "C12": dict(
     level="model_checking", ref="DESIGN.md §4 C12",
     technique="TLA+ spec Corrupt (acceptance function over EmuFull + SystemOps; every single corruption of 5 seed traces enumerated by TLC with expected verdict) + CorruptBytes for suite traces; each corrupted trace materialised byte for byte and run through ovniemu -l",
-    text="TLC enumerates every truncation offset, adjacent swap, clock regression, header byte alteration, JSON damage, metadata key removal/retyping/alteration, require alteration, MCV substitution (incl. codes differing from a listed one only in bit 7), payload-size change and jumbo-flag removal (plain and with the very bytes the jumbo event stored as a normal payload) of the seeds and decides reject / ok / unspecified with the reference semantics (12 invariants, 4 refuted negative configurations); ~4000 (quick) corrupted traces are run on the real emulator: expected reject => exit 1 without 'finished ok' and without a signal.",
+    text="TLC enumerates every truncation offset, adjacent swap, clock regression, header byte alteration, JSON damage, metadata key removal/retyping/alteration, require alteration, MCV substitution (incl. codes differing from a listed one only in bit 7), payload-size change, jumbo data cut below its first field and jumbo-flag removal (plain and with the very bytes the jumbo event stored as a normal payload) of the seeds and decides reject / ok / unspecified with the reference semantics (12 invariants, 4 refuted negative configurations); ~4000 (quick) corrupted traces are run on the real emulator: expected reject => exit 1 without 'finished ok' and without a signal.",
     note="Where a corruption yields another valid trace the spec says ok/Unspecified; redundant guards in the code make some single-guard mutations verdict-equivalent."),
 
  "C16": dict(
     level="model_checking", ref="DESIGN.md §4 C16",
     technique="TLA+ spec OvniSort (property layer SortedStablePermutation/PrefixUntouched/Idempotent + implementation layer: region automaton, look-back ring, find_destination, stable re-sort, ring rebuild) checked by TLC for refinement over all small streams; exported streams replayed through ovnisort / ovnisort -c / ovniemu and random larger runs validated by OvniSortTrace.tla",
-    text="TLC explores every stream of <=6 events over 3-4 clock values with regions, jumbo events and several ring sizes (0.77M states quick, 9.8M thorough): Impl => Property, tightness of the look-back precondition, idempotence, five refuted negative configurations. ~7400 exported (stream, ring) pairs are materialised byte for byte and the tool's exit status, output order, size, untouched prefix, second run, check mode and emulator verdict compared with TLC's; random streams up to thousands of events (incl. disorder outside the regions before and after legal regions) and traces with two streams (the look-back ring must not leak between streams; a stream that cannot be sorted followed by a sorted one must still fail the run) are validated in the recorded direction; a third of all cases is written with clocks seconds apart (differences beyond 2^31 ns), about half of the normal events carry no payload, and streams of ~3000 events dominated by one region that belongs near the start are sorted with the default window.",
+    text="TLC explores every stream of <=6 events over 3-4 clock values with regions, jumbo events and several ring sizes (0.77M states quick, 9.8M thorough): Impl => Property, tightness of the look-back precondition, idempotence, five refuted negative configurations. ~7400 exported (stream, ring) pairs are materialised byte for byte and the tool's exit status, output order, size, untouched prefix, second run, check mode and emulator verdict compared with TLC's; random streams up to thousands of events (incl. disorder outside the regions before and after legal regions) and traces with two streams (the look-back ring must not leak between streams; a stream that cannot be sorted followed by a sorted one must still fail the run) are validated in the recorded direction; a third of all cases is written with clocks seconds apart (differences beyond 2^31 ns), about half of the normal events carry no payload, a fifth starts at clock 0, and streams of ~3000 events dominated by one region that belongs near the start are sorted with the default window.",
     note="Stability relies on glibc's merge-sort qsort; outside the preconditions the tool may fail; exit 0 always means a sorted stream (fixed defect c7e4054); a second run may fail when the sorted stream no longer satisfies the look-back (file unchanged)."),
 
  "C19": dict(
